@@ -157,32 +157,35 @@ theorem startLoop_not_ok (g : Graph) (par fuel : Nat) (s : S) (p : Bool) (se : S
         · rename_i r hr; intro e; cases e; exact resToRun_not_ok _ _ _ _ hr
     · simp
 
-theorem readyLoop_not_ok (g : Graph) (c : Choices) (fuel : Nat) (s : S) (perms : List (List Nat)) (p : Bool)
-    (se : S) (b : Bool) : readyLoop g c fuel s perms p ≠ .inr (se, .ok b) := by
-  induction fuel generalizing s perms p with
+theorem readyLoop_not_ok {E : Type} (g : Graph) (c : Choices E) (fuel : Nat) (s : S) (e : E) (perms : List (List Nat)) (p : Bool)
+    (se : S) (e' : E) (b : Bool) : readyLoop g c fuel s e perms p ≠ .inr (se, e', .ok b) := by
+  induction fuel generalizing s e perms p with
   | zero => simp [readyLoop]
   | succ fuel ih =>
     unfold readyLoop
     split
     · simp
-    · split
+    · simp only []
+      split
       · simp
       · split
-        · simp only []
-          split
-          · exact ih _ _ _
-          · rename_i r hr; intro e; cases e; exact resToRun_not_ok _ _ _ _ hr
-        · simp only []
-          split
-          · exact ih _ _ _
-          · rename_i r hr; intro e; cases e; exact enqueueRun_not_ok _ _ _ _ _ hr
+        · split
+          · exact ih _ _ _ _
+          · rename_i r hr; intro h; cases h; exact resToRun_not_ok _ _ _ _ hr
+        · split
+          · split
+            · exact ih _ _ _ _
+            · rename_i r hr; intro h; cases h; exact resToRun_not_ok _ _ _ _ hr
+          · split
+            · exact ih _ _ _ _
+            · rename_i r hr; intro h; cases h; exact enqueueRun_not_ok _ _ _ _ _ hr
 
 /-- `Work::run` reports success only with no failed task on record and nothing pending. -/
-theorem runLoop_ok_true (g : Graph) (par : Nat) (c : Choices) (fuel : Nat) (s : S)
+theorem runLoop_ok_true {E : Type} (g : Graph) (par : Nat) (c : Choices E) (fuel : Nat) (s : S) (e : E)
     (perms : List (List Nat)) (fin : List (Nat × Term))
-    (h : (runLoop g par c fuel s perms fin).result = .ok true) :
-    (runLoop g par c fuel s perms fin).s.tasksFailed = 0 ∧ (runLoop g par c fuel s perms fin).s.pending ≤ 0 := by
-  fun_induction runLoop g par c fuel s perms fin
+    (h : (runLoop g par c fuel s e perms fin).result = .ok true) :
+    (runLoop g par c fuel s e perms fin).s.tasksFailed = 0 ∧ (runLoop g par c fuel s e perms fin).s.pending ≤ 0 := by
+  fun_induction runLoop g par c fuel s e perms fin
   all_goals first
     | (simp at h; done)
     | (rename_i ih; exact ih h)
